@@ -126,7 +126,18 @@ Definition treasure_rows : list row := [
   R 62 "event callback: treasure.GetCreatedBy"     LCreatedBy  Rd ((KGuard, Excl) :: tmuS);
   R 63 "event callback: treasure.GetModifiedAt"    LModifiedAt Rd ((KGuard, Excl) :: tmuS);
   R 64 "event callback: treasure.GetModifiedBy"    LModifiedBy Rd ((KGuard, Excl) :: tmuS);
-  R 65 "event callback: treasure.GetExpirationTime" LExpiration Rd ((KGuard, Excl) :: tmuS)
+  R 65 "event callback: treasure.GetExpirationTime" LExpiration Rd ((KGuard, Excl) :: tmuS);
+  (* the same callback also converts event.OldTreasure = the record found in the key map. For a
+     writer that works on a record object which a concurrent Delete/ShiftByKeys has replaced
+     (C09: write_on_stale_record_object_after_delete) that is ANOTHER object, whose guard the
+     writer does not hold.  The harness maps event-callback reads to these rows only in runs that
+     contain removals (phase A); without removals rows 60-65 apply. *)
+  R 70 "event callback (swamp with removals): GetContentType|GetContent* of the indexed record" LContent    Rd tmuS;
+  R 71 "event callback (swamp with removals): GetCreatedAt of the indexed record"     LCreatedAt  Rd tmuS;
+  R 72 "event callback (swamp with removals): GetCreatedBy of the indexed record"     LCreatedBy  Rd tmuS;
+  R 73 "event callback (swamp with removals): GetModifiedAt of the indexed record"    LModifiedAt Rd tmuS;
+  R 74 "event callback (swamp with removals): GetModifiedBy of the indexed record"    LModifiedBy Rd tmuS;
+  R 75 "event callback (swamp with removals): GetExpirationTime of the indexed record" LExpiration Rd tmuS
 ].
 
 Definition table : list row := beacon_rows ++ treasure_rows.
